@@ -50,6 +50,10 @@ STRENGTHENED = {
     "C12-7": "C12 component sub-check: fat and thin files, a low CompactionRatio and MaxMemTables above the number of level-0 files, so that the size-ratio selection runs",
     "C20-8": "C20: sub-check for the Manifest type (NewManifest / Save / LoadManifest / UpdateConfig), which the engine does not use and the check had not exercised",
     "C03-8": "gen: one key longer than a physical log record (32756 / 32769 / 40000 / 65000 bytes) in the 'huge' key shape - the embedded API has no key limit of its own; C09 caught it already",
+    "C14-7": "C14: 'hot_phase' class (2000-4000 back-to-back writes while replicas reconnect / join / restart, retry delay 20-50 ms); a primary write that does not return is a violation of its own",
+    "C15-7": "C15: 'flapping_acker' fault class (acks from 4-8 goroutines, connection closed abruptly after 1-20 ms, hundreds of lives)",
+    "C17-7": "C17: 'race_finish' step (two finishers queued behind a slow read of the same transaction, all pairings, three paths)",
+    "C17-8": "C17: rare long-lived-server case (1000-1500 client lives that begin and vanish against one service instance, probes in between)",
     "C13-4": "C13: real Replica state machine with injected transient apply failures (error state -> recovery -> new stream)",
     "C15-4": "C15: primary with a pre-history (older log files in the directory) so that the ack path's retention pass has work to do",
 }
